@@ -1,7 +1,7 @@
 from ast import Attribute, Subscript, Load, NodeVisitor, Name as AstName
 
 from .compat import PY2
-from .scope import FuncScope, Flow, SourceScope, ClassScope
+from .scope import FuncScope, Flow, SourceScope, ClassScope, get_first_body_node_loc
 from .name import AssignedName, ImportedName
 from .util import (np, get_expr_end, get_indexes_for_target, visitor, get_any_marked_name)
 
@@ -140,7 +140,7 @@ class extract_visitor(NodeVisitor):
             if not isinstance(nn, AstName):
                 continue
             name = nn  # type: ast.Name # type: ignore[assignment]
-            body_start.add_name(AssignedName(name.id, np(node.body[0]), np(name), node.iter))
+            body_start.add_name(AssignedName(name.id, get_first_body_node_loc(node.body), np(name), node.iter))
         self.visit_in_flow(node.target, body_start)
         body = self.visit_in_flow(node.body, body_start)
         body_start.loop(body)
@@ -212,9 +212,9 @@ class extract_visitor(NodeVisitor):
                 fh = self.visit_in_flow(h.type, fh)
             if h.name:
                 if PY2:
-                    fh.add_name(AssignedName(h.name.id, np(h.body[0]), np(h), h.type))
+                    fh.add_name(AssignedName(h.name.id, get_first_body_node_loc(h.body), np(h), h.type))
                 else:
-                    fh.add_name(AssignedName(h.name, np(h.body[0]), np(h), h.type))  # type: ignore[arg-type]
+                    fh.add_name(AssignedName(h.name, get_first_body_node_loc(h.body), np(h), h.type))  # type: ignore[arg-type]
             handlers.append(self.visit_in_flow(h.body, fh))
 
         orelse = self.visit_in_flow(node.orelse,
